@@ -89,6 +89,28 @@ def r2_dedup(ctx):
             g = guard_context(b, bb).get(NAI)
             ctx.ob('C03.R2', 'raw-add-only-for-transients', g == {'Multiple'}, b.loc(bb), 'graph.add_node(..) is reached under NumberOfAllowedInvocations %s' % (sorted(g) if g else None))
     ctx.floor('C03.R2', 'node-adding closures with both paths', n, 1)
+    # a node that may run several times gets a node of its own EVERY time it is asked for: every path through the Multiple arm adds one
+    from ..inline import inlined
+    from ..tables import enum_switches, switch_edges
+    m = 0
+    for b0 in family_bodies(ctx, 'pavexc', [CG + 'core_graph::build_call_graph']):
+        if b0.is_promoted or not any(callee(t) == CG + 'core_graph::NodeDeduplicator::add_node_at_most_once' for _, t in b0.calls()):
+            continue
+        b = inlined(ctx.fb, b0, keep={CG + 'core_graph::NodeDeduplicator::add_node_at_most_once'})
+        raw = [bb for bb, t in b.calls() if (callee(t) or '').endswith('StableGraph::add_node')]
+        rets = set(b.return_blocks())
+        for sbb, t in enum_switches(b):
+            if strip_generics(t['enum']) != NAI:
+                continue
+            tg = switch_edges(t).get('Multiple')
+            if tg is None:
+                continue
+            m += 1
+            escapes = sorted(b.reachable(tg, avoid=raw) & rets)
+            ctx.ob('C03.R2', 'transient-node-is-always-fresh', not escapes, b.loc(sbb),
+                   'every path through the NumberOfAllowedInvocations::Multiple arm of the node-adding closure calls graph.add_node itself%s' % (
+                       '' if not escapes else ': a path returns a node index without adding a node (a node looked up or remembered somewhere is shared between injection sites)'))
+    ctx.floor('C03.R2', 'Multiple arms of the node-adding closure', m, 1)
 
 
 def r3_invariants(ctx):
